@@ -43,10 +43,14 @@ const (
 	opCompactB
 	opReopen
 	nOps
+	// curated histories only (family b = kv family id 2): rollup bookkeeping of a target family - a reference to file 10
+	// of family 1 of the source store "src" is recorded / deleted
+	opRefB   = 13
+	opUnrefB = 15
 )
 
 var opName = []string{"create(a)", "create(b)", "flush1(a)", "flush1(b)", "flush2(a)", "flush2(b)", "flushEmpty(a)", "flushEmpty(b)",
-	"flushSeq(a)", "flushSeq(b)", "compact(a)", "compact(b)", "reopen"}
+	"flushSeq(a)", "flushSeq(b)", "compact(a)", "compact(b)", "reopen", "ref(b)", "", "unref(b)"}
 
 var famNames = []string{"a", "b"}
 
@@ -61,6 +65,7 @@ type famModel struct {
 	Seqs    map[int32]int64
 	L0, L1  int // number of files per level (drives the precondition of compact only)
 	Marks   int // files carrying a rollup mark (only when the store has rollup targets)
+	Refs    int // reference records (source store "src", family 1, file 10) the family holds: 0 or 1
 }
 
 type model struct{ F [2]famModel }
@@ -68,7 +73,7 @@ type model struct{ F [2]famModel }
 func (m *model) clone() *model {
 	c := &model{}
 	for i := range m.F {
-		c.F[i] = famModel{Exists: m.F[i].Exists, L0: m.F[i].L0, L1: m.F[i].L1, Marks: m.F[i].Marks, Content: map[uint32]string{}, Seqs: map[int32]int64{}}
+		c.F[i] = famModel{Exists: m.F[i].Exists, L0: m.F[i].L0, L1: m.F[i].L1, Marks: m.F[i].Marks, Refs: m.F[i].Refs, Content: map[uint32]string{}, Seqs: map[int32]int64{}}
 		for k, v := range m.F[i].Content {
 			c.F[i].Content[k] = v
 		}
@@ -130,6 +135,10 @@ func (m *model) apply(op, idx int, rollup bool) {
 		}
 	case opCompactA, opCompactB:
 		f.L0, f.L1 = 0, 1
+	case opRefB:
+		f.Refs = 1
+	case opUnrefB:
+		f.Refs = 0
 	}
 }
 
@@ -151,6 +160,11 @@ func (m *model) canon(withMarks bool) string {
 		}
 		if withMarks {
 			fmt.Fprintf(&b, "marks=%d", f.Marks)
+			if f.Refs == 1 {
+				b.WriteString(" refs=[src/1/10]")
+			} else if f.Refs > 1 {
+				b.WriteString(" refs=[?]")
+			}
 		}
 		b.WriteString("} ")
 	}
@@ -351,6 +365,18 @@ func observe(st kv.Store, withMarks bool) (string, []string) {
 		}
 		if withMarks {
 			fmt.Fprintf(&b, "marks=%d", len(kv.VerifFamilyVersion(fam).GetLiveRollupFiles()))
+			var refs []string
+			for store, fams := range snap.GetCurrent().GetAllReferenceFiles() {
+				for fid, files := range fams {
+					for _, fn := range files {
+						refs = append(refs, fmt.Sprintf("%s/%d/%d", store, fid, fn))
+					}
+				}
+			}
+			if len(refs) > 0 {
+				sort.Strings(refs)
+				fmt.Fprintf(&b, " refs=%v", refs)
+			}
 		}
 		b.WriteString("} ")
 		// every table named by the version exists and iterates completely; numbers are unique store-wide
@@ -476,6 +502,15 @@ func runHistory(rep *vevid.Report, h history) {
 			fam := st.GetFamily(famNames[opFam(op)])
 			fam.Compact()
 			kv.VerifFamilyWait(fam)
+		case opRefB, opUnrefB:
+			fv := kv.VerifFamilyVersion(st.GetFamily("b"))
+			el := version.NewEditLog(fv.GetID())
+			if op == opRefB {
+				el.Add(version.CreateNewReferenceFile("src", 1, 10))
+			} else {
+				el.Add(version.CreateDeleteReferenceFile("src", 1, 10))
+			}
+			opErr = fv.GetVersionSet().CommitFamilyEditLog("b", el)
 		case opReopen:
 			if err := kv.VerifCloseStore(st); err != nil {
 				opErr = err
@@ -691,6 +726,12 @@ func parseCanon(c string) *model {
 				m.F[i].Seqs[1] = v
 			case "marks":
 				fmt.Sscan(kvp[1], &m.F[i].Marks)
+			case "refs":
+				if kvp[1] == "[src/1/10]" {
+					m.F[i].Refs = 1
+				} else {
+					m.F[i].Refs = 2 // anything else prints differently from the model anyway
+				}
 			default:
 				var k uint32
 				fmt.Sscan(kvp[0], &k)
@@ -726,6 +767,8 @@ var curated = []history{
 	{cfg{}, []int{opCreateA, opFlushEmptyA, opFlush1A, opFlushEmptyA, opReopen, opFlush2A, opCompactA}},
 	{cfg{Rollup: true}, []int{opCreateA, opFlush1A, opFlush2A, opReopen, opFlushSeqA, opCreateB, opFlush1B}},
 	{cfg{Rollup: true}, []int{opCreateA, opFlush1A, opFlush1A, opCompactA, opReopen, opFlush1A}},
+	{cfg{Rollup: true}, []int{opCreateA, opCreateB, opRefB, opReopen, opReopen, opFlush1B}},
+	{cfg{Rollup: true}, []int{opCreateA, opCreateB, opFlush1B, opRefB, opReopen, opUnrefB, opReopen}},
 	// commits whose metadata record is larger than a page (replica sequences of 1500 leaders)
 	{cfg{Wide: true}, []int{opCreateA, opFlush1A, opFlushSeqA, opFlush1A, opReopen}},
 	{cfg{Wide: true}, []int{opCreateA, opFlushSeqA, opFlush2A, opCompactA, opFlushSeqA, opReopen, opFlush1A}},
